@@ -41,7 +41,9 @@ def parseApp (s : String) : Option App :=
     let l ← natList l
     let m ← parseMods m
     if n ≤ 3 ∧ t < 1000 ∧ l.all (· < 8) ∧ l.length ≤ 4 ∧ m.length ≤ 4 ∧
-        (if n = 3 then f = 0 ∨ f = 2 else f ≤ 5 ∧ f ≠ 1) then some ⟨n, t, f, l, m⟩ else none
+        (if n = 3 then f = 0 ∨ f = 2 else f ≤ 5 ∧ f ≠ 1) ∧
+        -- keys ≥ 4 are real reverse_proxy handlers: only in the HTTP app, never "unknown"
+        m.all (fun g => g.key < 4 ∨ (n = 3 ∧ g.fault ≠ 1)) then some ⟨n, t, f, l, m⟩ else none
   | _ => none
 
 def strictlySorted : List Nat → Bool
@@ -144,10 +146,10 @@ def showEv : Ev → Option String
   | .prov i => some ("p" ++ showInst i)
   | .valid i => some ("v" ++ showInst i)
   | .clean i => some ("c" ++ showInst i)
-  | .start i => some ("s" ++ showInst i)
-  | .started i => some ("o" ++ showInst i)
-  | .startFail i => some ("f" ++ showInst i)
-  | .stop i => some ("x" ++ showInst i)
+  | .start c n => some s!"s{c}.{n}.0"
+  | .started c n => some s!"o{c}.{n}.0"
+  | .startFail c n => some s!"f{c}.{n}.0"
+  | .stop c n => some s!"x{c}.{n}.0"
   | .cbReg _ => none   -- OnCancel happens inside caddy: not a probe event; its effect is
   | .cbRun _ => none   -- visible as writer closes and in the writers pool
   | .wopen k => if k = 0 then none else some s!"w{k}"   -- the stderr writer is not a probe
